@@ -2,7 +2,8 @@
 The real compiler's bytecode for each session (decoded by `vh run`, wantbc) is executed by the intended VM
 of CalcVM.tla inside TLC; its observations are compared with CalcSem's (same session, generate mode), which
 separates "the compiler emitted wrong code" from "the VM executed right code wrongly"; the per-instruction
-trace (ip, sp, frames, closures) of the real VM must be followed step by step by the intended VM."""
+trace (ip, sp, frames, closures, temp-register and stack-top signatures) of the real VM must be followed step by
+step by the intended VM, with the specified value in the temp register / on the stack wherever an instruction reads it."""
 import json
 import vlib, sess
 
@@ -69,8 +70,9 @@ def validate(ck, sessions, part, maxsteps=40000, batch=1500, with_trace=True):
         texts = [sess.item_text(it) for it in s["items"]]
         if sid in div:
             d = div[sid]
-            viol.append(("the real VM leaves the intended machine at instruction level: statement %d (%s) step %d, opcode %s: intended (ip, sp, frames, closures) = %s, real = %s" % (
-                d["stmt"], texts[d["stmt"] - 1].replace("\n", " ; ")[:120], d["step"], d["op"], d["spec"], d["real"]), {"session": s, "texts": texts, "vmdiverge": d}, "trace"))
+            viol.append(("the real VM leaves the intended machine at instruction level (%s): statement %d (%s) step %d, opcode %s: intended (ip, sp, frames, closures) = %s%s, real event (.., temp register, stack top) = %s" % (
+                d.get("what", "state"), d["stmt"], texts[d["stmt"] - 1].replace("\n", " ; ")[:120], d["step"], d["op"], d["spec"],
+                (", intended value " + d["specval"]) if d.get("specval") else "", d["real"]), {"session": s, "texts": texts, "vmdiverge": d}, "trace"))
             continue
         if "trace" in p:
             followed += 1
@@ -99,4 +101,73 @@ def validate(ck, sessions, part, maxsteps=40000, batch=1500, with_trace=True):
             agree += 1
     ck.part(part, programs=len(progs), agree_with_semantics=agree, traces_followed_to_the_end=followed)
     ck.cov["traces_validated_against_impl"] += followed
+    if with_trace:
+        selftest(ck, [p for p in progs if "trace" in p and p["id"] not in div], part, maxsteps)
     return len(progs), agree, viol
+
+
+BINOPS = {"ADD", "SUB", "MUL", "DIV", "MOD", "AND", "OR", "LT", "GT", "LE", "GE", "EQ", "NE", "LSH", "RSH"}
+UNOPS = {"NOT", "FLIP", "LEN"}
+
+
+def reads_tmp(i):
+    return (i["op"] in BINOPS | UNOPS and i["t"]) or (i["op"] == "PUSH" and i["t"]) or (i["op"] == "MOV" and i["k0"] == "tmp")
+
+
+def pops_first(i):
+    return i["k0"] == "stck" and (i["op"] in BINOPS or (i["op"] in UNOPS and not i["t"]) or (i["op"] == "PUSH" and not i["t"]) or
+                                  i["op"] in ("MOV", "INC", "JMPF", "JMPT", "IX1", "IX2", "ARR", "FUNC", "CALL", "RET", "YIELD", "WRITE", "TOA", "ATON"))
+
+
+def selftest(ck, progs, part, maxsteps, want=8):
+    """the binding must notice a corrupted event: one stack pointer, one temp-register signature at an instruction that
+    reads the register, one stack-top signature at an instruction that pops it (a missed corruption is exit 2)"""
+    import copy
+    bad, expect = [], {}
+    for kind in ("state", "temp register", "operand"):
+        n = 0
+        for p in progs:
+            if n >= want:
+                break
+            hit = None
+            for si, tr in enumerate(p["trace"]):
+                for j, ev in enumerate(tr):
+                    if len(ev) < 6 or ev[0] >= len(p["code"]):
+                        continue
+                    ins = p["code"][ev[0]]
+                    if kind == "state" and j > 0 or kind == "temp register" and reads_tmp(ins) or kind == "operand" and pops_first(ins) and ev[5] != "-":
+                        hit = (si, j)
+                        break
+                if hit:
+                    break
+            if not hit:
+                continue
+            q = copy.deepcopy(p)
+            q["id"] = "selftest-%s-%s" % (kind.replace(" ", ""), p["id"])
+            ev = q["trace"][hit[0]][hit[1]]
+            if kind == "state":
+                ev[1] += 1
+            elif kind == "temp register":
+                ev[4] = "i987654" if ev[4] != "i987654" else "n"
+            else:
+                ev[5] = "i987654" if ev[5] != "i987654" else "n"
+            bad.append(q)
+            expect[q["id"]] = kind
+            n += 1
+    if not bad:
+        return
+    data = "\n".join(json.dumps(p) for p in bad) + "\n"
+    cfg = "SPECIFICATION Spec\nCONSTANT ProgramsFile = \"programs.ndjson\"\nCONSTANT MaxSteps = %d\nVIEW View\nCHECK_DEADLOCK FALSE\n" % maxsteps
+    r = vlib.run_tlc("CalcVM", "VMRun.cfg", files={"programs.ndjson": data, "VMRun.cfg": cfg}, timeout=3000)
+    got = {}
+    for l in r.lines:
+        if l.startswith("VMDIVERGE "):
+            d = json.loads(l[10:])
+            got[d["id"]] = d.get("what")
+    missed = [i for i, k in expect.items() if got.get(i) != k]
+    if missed:
+        raise vlib.Infra("CalcVM binding self-test: corrupted events not rejected as expected: %s" % [(i, expect[i], got.get(i)) for i in missed[:5]])
+    counts = {}
+    for k in expect.values():
+        counts[k] = counts.get(k, 0) + 1
+    ck.part(part, selftest_corrupted_events=counts, selftest_rejected=len(expect))
